@@ -153,6 +153,7 @@ func c01(c *Ctx) {
 	r.Rule("R-C01.4", "in the node-led branch (len(R.Nonce)==NonceSize) no storage write, removal or certificate minting is reachable before the branch rejoins, and every success return inside the branch is an empty response")
 	r.Rule("R-C01.5", "(*NodeInformation).Store is called only from the authorisation helper; the helper only from AuthorizeNode, FetchNodeCredentials and the token validator")
 	r.Rule("R-C01.6", "in registration.AuthorizeNode the authorising call is cut by len(R.Nonce)==NonceSize, by success of validation and by errors.Is(loadErr, ErrNotFound) for the record of R's key ID")
+	r.Rule("R-C01.8", "registration.DecryptWrappedRegistrationInfo: every non-error return hands out the message filled by proto.Unmarshal of the plaintext that opts.WithRegistrationWrapper.Decrypt produced from the blob unmarshalled from R.WrappedRegistrationInfo, after both succeeded; nothing else (no value taken from the request itself)")
 	r.Rule("R-C01.7", "every fmt.Errorf that carries the error of a storage load on the way to an errors.Is(_, ErrNotFound) test uses %w for it (types.Load*, back-end Load)")
 	r.NotDecided = append(r.NotDecided, "that stored records are exactly those created by an operator or an earlier enrollment (history)", "token freshness beyond C06", "cryptographic meaning of sealed registration info")
 
@@ -245,6 +246,7 @@ func c01(c *Ctx) {
 
 	// R-C01.7 sentinel survives wrapping
 	c01Wrapping(c)
+	c01Unwrap(c)
 
 	// clause (b): the activation-token path (C06's validator rules, evaluated here too)
 	c.R.Rule("R-C06.1", "token validator: authorisation only after loading the entry under the ID derived from both token halves, non-nil/non-zero creation time, the expiry test, successful removal of the entry and the existing-record test (C06's rule, evaluated here for clause (b))")
@@ -616,4 +618,84 @@ func fetchBinding(c *Ctx, a *fetchAnchors, rule string) core.Guard {
 	}
 
 	return gValid
+}
+
+
+// c01Unwrap: the registration info of the wrapping flow is what the server's
+// registration wrapper decrypted - never a value the requester supplied.
+func c01Unwrap(c *Ctx) {
+	p, r := c.P, c.R
+	fn := c.need("R-C01.8", "registration", "DecryptWrappedRegistrationInfo")
+	if fn == nil {
+		return
+	}
+	name := core.FuncName(fn)
+	R := paramOfType(fn, typesPkg, "FetchNodeCredentialsInfo")
+	// the decrypt through the registration wrapper
+	var dec *ssa.Call
+	for _, ci := range core.AllCalls(fn) {
+		cc, ok := ci.(*ssa.Call)
+		if !ok || !cc.Common().IsInvoke() || cc.Common().Method.Name() != "Decrypt" {
+			continue
+		}
+		if core.PathOf(cc.Common().Value).HasFields("WithRegistrationWrapper") {
+			dec = cc
+		}
+	}
+	if R == nil || dec == nil {
+		r.Unk("R-C01.8", name+" anchors", p.Pos(fn.Pos()), fmt.Sprintf("request param=%v registration-wrapper Decrypt=%v", R != nil, dec != nil))
+		return
+	}
+	ums := callsNamed(fn, "google.golang.org/protobuf/proto.Unmarshal")
+	// blob given to Decrypt is filled from R.WrappedRegistrationInfo
+	var blobUm, outUm *ssa.Call
+	var out ssa.Value
+	for _, um := range ums {
+		src := core.PathOf(um.Call.Args[0])
+		dst := core.Strip(um.Call.Args[1])
+		if mi, ok := dst.(*ssa.MakeInterface); ok {
+			dst = core.Strip(mi.X)
+		}
+		if src.Root == ssa.Value(R) && src.HasFields("WrappedRegistrationInfo") && len(dec.Call.Args) >= 2 && core.Strip(dec.Call.Args[1]) == dst {
+			blobUm = um
+		}
+		if pc, pi := core.CallResult(core.Strip(um.Call.Args[0])); pc == dec && pi == 0 {
+			outUm, out = um, dst
+		}
+	}
+	r.Check(blobUm != nil, "R-C01.8", name+" ciphertext", p.Pos(dec.Pos()), "decrypts the blob unmarshalled from R.WrappedRegistrationInfo", "the registration wrapper does not decrypt the request's WrappedRegistrationInfo")
+	if outUm == nil {
+		r.Bad("R-C01.8", name+" plaintext", p.Pos(dec.Pos()), "the decrypted plaintext is not unmarshalled into the returned registration info")
+		return
+	}
+	gDec := core.ErrNil("registration-wrapper Decrypt", func(x *ssa.Call) bool { return x == dec })
+	gUm := core.ErrNil("Unmarshal(plaintext)", func(x *ssa.Call) bool { return x == outUm })
+	ei := core.ErrorResultIndex(fn.Signature)
+	n := 0
+	for i, ret := range core.Returns(fn) {
+		if core.ReturnErrKind(ret, ei) == core.ErrNonNil {
+			continue
+		}
+		n++
+		construct := fmt.Sprintf("%s success-return#%d", name, i)
+		good := true
+		why := ""
+		eachSource(core.ReturnOperand(ret, 0), func(v ssa.Value) {
+			if core.IsNilConst(v) {
+				return
+			}
+			if v != out {
+				good, why = false, core.ValueName(v)
+			}
+		})
+		r.Check(good, "R-C01.8", construct+" value", p.Pos(ret.Pos()), "returns the message the wrapper's plaintext was unmarshalled into",
+			"registration info that did not come out of the server's registration wrapper is returned as authentic ("+why+"): the requester can assert its own authorisation")
+		for _, g := range []core.Guard{gDec, gUm} {
+			res := core.CutReach(p, fn, g, ret.Block())
+			r.CutOb(p, "R-C01.8", construct+" guard="+g.Name, p.Pos(ret.Pos()), res, g)
+		}
+	}
+	if n == 0 {
+		r.Unk("R-C01.8", name+" success returns", p.Pos(fn.Pos()), "none found")
+	}
 }
